@@ -12,10 +12,14 @@ TRUST = ('TLC/SANY and the Json/IOUtils community modules; the harness '
 EXTRA = {
     'lib': ' Also driven: two callers at once (line-level preemption by code location), the same calls in a '
            '`python -O` interpreter where applicable, and objects continued on / forked to deep copies and pickle '
-           'round trips.',
+           'round trips. Since rounds 8-9 part of the cases runs in another environment: DEBUG logging on, other hash '
+           'seeds, calls taken without looking at the object in between, hands as lists, derived contracts, integers '
+           'of other types.',
     'table': ' Sessions also run in a `python -O` interpreter, with a second table alive in the same process, with '
              'refused connection requests on the way, with the process ending when Server.run returns (command-line '
-             'use) and with the log snapshot whenever "End of session" is sent.',
+             'use) and with the log snapshot whenever "End of session" is sent. Since round 8: the transport cuts '
+             'messages into segments (also between CR and LF), a put by a second producer of a queue is a scheduling '
+             'point, DEBUG logging on, other hash seeds.',
 }
 
 CHECKS = {
